@@ -641,7 +641,7 @@ func verifC12Run(cfg verifC12Config, settleLimit time.Duration) (out verifC12Out
 				ccancel()
 			}
 		}
-		if out.machinery != "" {
+		if out.machinery != "" || c.net.tripped.Load() {
 			break
 		}
 		time.Sleep(time.Duration(st.PauseMS) * time.Millisecond)
@@ -651,7 +651,9 @@ func verifC12Run(cfg verifC12Config, settleLimit time.Duration) (out verifC12Out
 	c.net.heal()
 	c.net.setLink(verifC12Link{DelayMaxUS: 200})
 	close(stopProposers)
-	if out.machinery == "" {
+	if c.net.tripped.Load() {
+		out.unsettled = "stopped early: clause (V) or (P) was violated on line"
+	} else if out.machinery == "" {
 		out.unsettled = c.settle(settleLimit, &out)
 		c.hist.Settled = out.unsettled == ""
 	}
